@@ -20,7 +20,7 @@ structure LibCfg where
   /-- strings.go:110-131: an index outside the range compares the empty string instead of leaving the result alone. -/
   stringsCmpOutOfRange : Bool := false   -- repaired in /repo (fix: commit), see known_findings.json
   /-- a typed-nil pointer argument is dereferenced by `sp` -/
-  stringsNilPtrPanics : Bool := true
+  stringsNilPtrPanics : Bool := false   -- repaired in /repo (fix: StringsInspector dereferenced a typed-nil pointer)
   /-- stranymap.go:216-221: Capacity with a non-empty path recurses into Length. -/
   samapCapIsLen : Bool := false   -- repaired in /repo (fix: commit), see known_findings.json
   /-- static.go:851-879: Reset of *string / *[]byte assigns to the local variable. -/
